@@ -36,3 +36,8 @@ pub fn base64_value(b: &Base64Bytes) -> Option<alloy::primitives::Bytes> {
 pub fn raw_value(b: &RawBytes) -> Option<alloy::primitives::Bytes> {
     b.value()
 }
+
+/// Declared consensus / storage versions (crate-private statics).
+pub fn versions() -> (u32, u32) {
+    (*PROTOCOL_VERSION, *DB_VERSION)
+}
